@@ -18,6 +18,10 @@ Definition option_effect (name value : str) : val :=
       | None => VL []
       end
   | Some (KFlag ws) => VL (map (fun fvp => VL [vnat (fst fvp); snd fvp]) ws)
+  | Some KTmux => match parse_tmux value with
+                  | Some t => VL [VL [vnat F_TMUX; vsome t]; VL [vnat F_HAFTER; Fv]]
+                  | None => VL []
+                  end
   | _ => VL []
   end.
 
